@@ -349,6 +349,12 @@ func (ms *MessageStreamer) Go(ctx context.Context, conn StreamConnection) error 
 				delayAmount = defaultMinDelay / 2
 			}
 			checkInterval := delayAmount * 9 / 10
+			if checkInterval < time.Millisecond {
+				// time.NewTicker panics on a non-positive interval, which a min
+				// backoff below 3ns (or a non-positive one) would produce; don't
+				// spin on tiny intervals either
+				checkInterval = time.Millisecond
+			}
 			if delayAmount < time.Second {
 				// set a min for this, but _after_ we compute checkInterval
 				delayAmount = time.Second
